@@ -16,7 +16,7 @@ pub fn is_contiguous<S: SizeArray, Strides: SizeArray>(shape: &S, strides: &Stri
         if stride != product {
             return false;
         }
-        product *= size;
+        product = product.saturating_mul(size);
     }
     true
 }
@@ -72,7 +72,9 @@ pub fn may_have_internal_overlap(shape: impl SizeArray, strides: impl SizeArray)
         if stride <= max_offset {
             return true;
         }
-        max_offset += (shape - 1) * stride;
+        // Saturate rather than wrap, so that very large strides are never
+        // mistaken for small offsets.
+        max_offset = max_offset.saturating_add((shape - 1).saturating_mul(stride));
     }
     false
 }
